@@ -1490,9 +1490,8 @@ return show(redis.pcall(table.unpack(ARGV)))
 // source-derived cross-check: literals per match arm of the two parser files
 // ---------------------------------------------------------------------------------------------
 
-fn arm_literals(path: &str) -> BTreeMap<String, BTreeSet<String>> {
+fn arm_literals(src: &str) -> BTreeMap<String, BTreeSet<String>> {
     let mut m: BTreeMap<String, BTreeSet<String>> = BTreeMap::new();
-    let src = match std::fs::read_to_string(path) { Ok(s) => s, Err(_) => return m };
     let mut arm = String::new();
     for line in src.lines() {
         let ind = line.len() - line.trim_start().len();
@@ -1534,9 +1533,38 @@ fn repo_dir() -> String {
     "/repo".to_string()
 }
 
+/// the anchored files (roots of the module trees the source scans read)
+const PARSER_RS: &str = "src/redis/parser.rs";
+const COMMANDS_RS: &str = "src/redis/commands.rs";
+const SCRIPT_OPS_RS: &str = "src/redis/executor/script_ops.rs";
+const COMMAND_RS: &str = "src/redis/command.rs";
+
+/// what the scans read: per anchored file the files of its module tree, and the `pub` fns of the tree that are not
+/// the known entry points (evidence only: a new public function nothing drives is listed, not a violation — a new
+/// command ARM or a differing helper is what the shape comparison fails on)
+fn source_trees(dir: &str) -> serde_json::Value {
+    const KNOWN: &[(&str, &[&str])] = &[
+        (PARSER_RS, &["from_resp"]),
+        (COMMANDS_RS, &["from_resp_zero_copy"]),
+        (SCRIPT_OPS_RS, &["cache_script_internal", "get_script_internal", "has_script_internal", "flush_scripts_internal", "execute_eval", "execute_evalsha",
+            "execute_script_load", "execute_script_exists", "execute_script_flush", "execute_lua_script"]),
+        (COMMAND_RS, &[]),
+    ];
+    let mut m = serde_json::Map::new();
+    for (rel, known) in KNOWN {
+        let t = shape::module_tree(dir, rel);
+        let extract = |n: &str| n.starts_with("extract_");
+        let new_fns: Vec<String> = t.pub_fns.iter().filter(|(_, _, n)| *rel != COMMAND_RS && !known.contains(&n.as_str()) && !extract(n))
+            .map(|(f, v, n)| format!("{} {} fn {}", f, v, n)).collect();
+        let moved: Vec<String> = t.pub_fns.iter().filter(|(_, _, n)| extract(n)).map(|(f, v, n)| format!("{} {} fn {}", f, v, n)).collect();
+        m.insert(rel.to_string(), json!({"files": t.files, "mod_declarations_without_file": t.missing, "pub_fns_not_in_the_known_list": new_fns, "extract_helpers_with_a_visibility": moved}));
+    }
+    serde_json::Value::Object(m)
+}
+
 fn source_diff(cx: &mut Ctx) {
-    let a = arm_literals(&format!("{}/src/redis/parser.rs", repo_dir()));
-    let b = arm_literals(&format!("{}/src/redis/commands.rs", repo_dir()));
+    let a = arm_literals(&shape::module_tree(&repo_dir(), PARSER_RS).text);
+    let b = arm_literals(&shape::module_tree(&repo_dir(), COMMANDS_RS).text);
     let mut diffs = Vec::new();
     let names: BTreeSet<&String> = a.keys().chain(b.keys()).collect();
     for n in names {
@@ -1743,9 +1771,8 @@ fn is_word(w: &str) -> bool {
     !w.is_empty() && w.bytes().all(|c| c.is_ascii_uppercase() || c.is_ascii_digit() || c == b'-')
 }
 
-fn scan_source(path: &str, start: Option<&str>, end: Option<&str>, arm_indent: usize) -> SourceGrammar {
+fn scan_source(src: &str, start: Option<&str>, end: Option<&str>, arm_indent: usize) -> SourceGrammar {
     let mut g = SourceGrammar::default();
-    let src = match std::fs::read_to_string(path) { Ok(s) => s, Err(_) => return g };
     let mut on = start.is_none();
     let mut cur: Vec<String> = Vec::new();
     for line in src.lines() {
@@ -1811,15 +1838,16 @@ fn source_enumeration(cx: &mut Ctx) {
     let dir = repo_dir();
     // names and words come from the token-based shape translator (indifferent to indentation, line breaks, renamed
     // locals, arms moved into a private helper); the older indentation-based scanner is kept as a debugging aid
-    let read = |rel: &str| std::fs::read_to_string(format!("{}/{}", dir, rel)).unwrap_or_default();
-    let types = shape::field_types(&read("src/redis/command.rs"));
-    let sim = grammar_of_rows(&shape::extract(&read("src/redis/parser.rs"), "from_resp", shape::Style::Resp, &types));
-    let zc = grammar_of_rows(&shape::extract(&read("src/redis/commands.rs"), "from_resp_zero_copy", shape::Style::Resp, &types));
-    let lua = grammar_of_rows(&shape::extract(&read("src/redis/executor/script_ops.rs"), "parse_lua_command_bytes", shape::Style::Lua, &types));
+    // every anchored file is read WITH ITS MODULE TREE (`foo.rs` + the `foo/*.rs` it declares by `mod x;`, recursively)
+    let read = |rel: &str| shape::module_tree(&dir, rel).text;
+    let types = shape::field_types(&read(COMMAND_RS));
+    let sim = grammar_of_rows(&shape::extract(&read(PARSER_RS), "from_resp", shape::Style::Resp, &types));
+    let zc = grammar_of_rows(&shape::extract(&read(COMMANDS_RS), "from_resp_zero_copy", shape::Style::Resp, &types));
+    let lua = grammar_of_rows(&shape::extract(&read(SCRIPT_OPS_RS), "parse_lua_command_bytes", shape::Style::Lua, &types));
     if std::env::var("VERIF_C16_DEBUG_SCAN").is_ok() {
-        let o_sim = scan_source(&format!("{}/src/redis/parser.rs", dir), None, Some("fn extract_string"), 20);
-        let o_zc = scan_source(&format!("{}/src/redis/commands.rs", dir), None, Some("fn extract_string_zc"), 20);
-        let o_lua = scan_source(&format!("{}/src/redis/executor/script_ops.rs", dir), Some("fn parse_lua_command_bytes"), Some("fn lua_to_resp"), 12);
+        let o_sim = scan_source(&read(PARSER_RS), None, Some("fn extract_string"), 20);
+        let o_zc = scan_source(&read(COMMANDS_RS), None, Some("fn extract_string_zc"), 20);
+        let o_lua = scan_source(&read(SCRIPT_OPS_RS), Some("fn parse_lua_command_bytes"), Some("fn lua_to_resp"), 12);
         for (tag, old, new) in [("sim", &o_sim, &sim), ("zc", &o_zc, &zc), ("lua", &o_lua, &lua)] {
             eprintln!("SCAN {} names equal: {} kws equal: {}", tag, old.names == new.names, old.kws == new.kws);
             for n in old.names.symmetric_difference(&new.names) { eprintln!("  name {}", n); }
@@ -1948,11 +1976,12 @@ fn shape_check(cx: &mut Ctx) {
     let model_default = MODEL_SHAPES.lines().find(|l| l.starts_with("D ")).map(|l| l[2..].to_string()).unwrap_or_default();
     cx.out.op("DF".to_string(), model_default.clone());
     let dir = repo_dir();
-    let read = |rel: &str| std::fs::read_to_string(format!("{}/{}", dir, rel)).unwrap_or_default();
-    let types = shape::field_types(&read("src/redis/command.rs"));
-    let sim = shape::extract(&read("src/redis/parser.rs"), "from_resp", shape::Style::Resp, &types);
-    let zc = shape::extract(&read("src/redis/commands.rs"), "from_resp_zero_copy", shape::Style::Resp, &types);
-    let lua = shape::extract(&read("src/redis/executor/script_ops.rs"), "parse_lua_command_bytes", shape::Style::Lua, &types);
+    // every anchored file is read WITH ITS MODULE TREE (`foo.rs` + the `foo/*.rs` it declares by `mod x;`, recursively)
+    let read = |rel: &str| shape::module_tree(&dir, rel).text;
+    let types = shape::field_types(&read(COMMAND_RS));
+    let sim = shape::extract(&read(PARSER_RS), "from_resp", shape::Style::Resp, &types);
+    let zc = shape::extract(&read(COMMANDS_RS), "from_resp_zero_copy", shape::Style::Resp, &types);
+    let lua = shape::extract(&read(SCRIPT_OPS_RS), "parse_lua_command_bytes", shape::Style::Lua, &types);
     if sim.rows.len() < 100 || zc.rows.len() < 100 || lua.rows.len() < 30 || sim.families.len() < 5 {
         cx.out.violation("C16:source:shape-scan-failed", "the match arms of the three grammars could not be translated into shape descriptors (layout changed?): the shape table is no longer compared with the source",
             json!({"repo": dir, "from_resp_rows": sim.rows.len(), "zero_copy_rows": zc.rows.len(), "translator_rows": lua.rows.len(), "families": sim.families.len(), "problems": [sim.problems, zc.problems, lua.problems]}));
@@ -2070,7 +2099,30 @@ fn shape_check(cx: &mut Ctx) {
     // the extract helpers and the arm of a name without a table entry
     let (ha, hb, hm) = (by_name(&sim.helpers), by_name(&zc.helpers), by_name(&model["H"]));
     if ha != hb {
-        cx.out.violation("C16:source:parsers-shape-differs:extract-helpers", "the extract helpers of the two RESP parsers differ (parsed type, error texts)", json!({"from_resp": ha, "from_resp_zero_copy": hb}));
+        // the site: which helper, which field (parsed type / text of a parse failure / literals), and the file of the
+        // module tree each twin was read from
+        let (ta, tb) = (shape::module_tree(&dir, PARSER_RS), shape::module_tree(&dir, COMMANDS_RS));
+        let file_of = |t: &shape::ModTree, fnname: &str| -> String {
+            t.files.iter().find(|f| std::fs::read_to_string(format!("{}/{}", dir, f)).map(|s| s.contains(&format!("fn {}(", fnname))).unwrap_or(false)).cloned().unwrap_or_else(|| "?".into())
+        };
+        let mut sites = Vec::new();
+        for n in ha.keys().chain(hb.keys()).collect::<BTreeSet<_>>() {
+            let (fa_, fb_) = (file_of(&ta, n), file_of(&tb, &format!("{}_zc", n)));
+            match (ha.get(n), hb.get(n)) {
+                (Some(x), Some(y)) => for f in ["ty", "perr", "lits"] {
+                    if x.get(f) != y.get(f) {
+                        sites.push(json!({"helper": n, "field": f, "from_resp": x.get(f).map(|v| readable(v)), "from_resp_zero_copy": y.get(f).map(|v| readable(v)), "from_resp_file": fa_, "from_resp_zero_copy_file": fb_}));
+                        cx.out.violation(&format!("C16:source:parsers-shape-differs:extract-helpers:{}:{}", n, f), "this extract helper differs between the two RESP parsers (ty: parsed type; perr: text of a parse failure; lits: every literal of the helper)",
+                            json!({"helper": n, "field": f, "from_resp": x.get(f).map(|v| readable(v)), "from_resp_zero_copy": y.get(f).map(|v| readable(v)), "from_resp_file": fa_, "from_resp_zero_copy_file": fb_}));
+                    }
+                },
+                (x, _) => {
+                    sites.push(json!({"helper": n, "field": "row", "in_from_resp_tree": x.is_some(), "in_from_resp_zero_copy_tree": hb.contains_key(n), "trees": [ta.files, tb.files]}));
+                    cx.out.violation(&format!("C16:source:parsers-shape-differs:extract-helpers:{}:row", n), "this extract helper was found in the module tree of one RESP parser only", json!({"helper": n, "in_from_resp_tree": x.is_some(), "in_from_resp_zero_copy_tree": hb.contains_key(n), "from_resp_tree": ta.files, "from_resp_zero_copy_tree": tb.files}));
+                }
+            }
+        }
+        cx.out.violation("C16:source:parsers-shape-differs:extract-helpers", "the extract helpers of the two RESP parsers differ (parsed type, error texts)", json!({"sites": sites, "from_resp": ha, "from_resp_zero_copy": hb}));
     }
     for n in ha.keys().chain(hm.keys()).collect::<BTreeSet<_>>() {
         match (ha.get(n), hm.get(n)) {
@@ -2110,6 +2162,7 @@ fn shape_check(cx: &mut Ctx) {
         "fields_compared": compared,
         "unrecognised": unrecognised,
         "read_through": {"from_resp": sim.notes, "from_resp_zero_copy": zc.notes, "parse_lua_command_bytes": lua.notes},
+        "module_trees": source_trees(&dir),
         "sample_rows": {"SET": a.get("SET"), "lua:ZADD": by_name(&lua.rows).get("ZADD"), "ACL.LOG": a.get("ACL.LOG")},
     }));
 }
